@@ -110,6 +110,8 @@ def accept_paths(P, f, accept="true"):
             if ret_o is not None and ret_o[0] == "call" and ret_o[1].name == "is_empty" and ret_o[1].args \
                     and "PathSegment.arguments" in f.describe_origin(f.origin(ret_o[1].args[0]), deep=3):
                 tail_atom = ("args", ("empty", not neg_))
+            elif ret_o is not None and not neg_ and ret_o[0] == "call" and ret_o[1].name == "is_ident" and len(ret_o[1].args) == 2 and ret_o[1].arg_lit(1, P) is not None:
+                tail_atom = ("is_ident", ret_o[1].arg_lit(1, P))
             elif ret_o is not None and not neg_ and ret_o[0] == "call" and ret_o[1].name in ("eq", "ne") and len(ret_o[1].args) == 2:
                 c_ = ret_o[1]
                 for i in (0, 1):
@@ -120,7 +122,7 @@ def accept_paths(P, f, accept="true"):
             n_paths += 1
             if n_paths > MAX_PATHS:
                 return None
-            atoms = {"len": [], "seg": {}, "args": [], "other": [], "opaque_value": acc is None and tail_atom is None}
+            atoms = {"len": [], "seg": {}, "args": [], "other": [], "kind": [], "opaque_value": acc is None and tail_atom is None}
             if tail_atom is not None and tail_atom[0] == "args":
                 atoms["args"].append(tail_atom[1])
             elif tail_atom is not None:
@@ -131,6 +133,18 @@ def accept_paths(P, f, accept="true"):
                     continue
                 t = f.blocks[blk]["term"]
                 if t["k"] != "switch":
+                    continue
+                od = f.origin(t["discr"])
+                if od[0] == "discr":
+                    vs = set(od[2].values())
+                    o, outcome = f.cond_struct(blk, lab)
+                    if vs <= {"Some", "None"} or vs <= {"Continue", "Break"} or vs <= {"Ok", "Err"}:
+                        continue            # unwrapping: structure, not a test of the path
+                    if "AngleBracketed" in vs:
+                        atoms["args"].append(("kind", outcome))
+                        continue
+                    # a test on the variant of some other enum (syn::Type, syn::Meta, GenericArgument …): kept for the rule to judge
+                    atoms.setdefault("kind", []).append(("/".join(sorted(vs)), outcome))
                     continue
                 o, outcome = f.cond_struct(blk, lab)
                 neg = False
@@ -154,6 +168,9 @@ def accept_paths(P, f, accept="true"):
                         atoms["seg"].setdefault(key, []).append((lit, eq))
                         continue
                     atoms["other"].append("%s=%s" % (f.describe_origin(o, deep=1)[:60], outcome))
+                    continue
+                if o[0] == "call" and o[1].name == "is_ident" and len(o[1].args) == 2 and truth is not None and o[1].arg_lit(1, P) is not None:
+                    atoms["seg"].setdefault("is_ident", []).append((o[1].arg_lit(1, P), truth))
                     continue
                 if o[0] == "bin" and o[1] in ("Eq", "Ne", "Lt", "Le", "Gt", "Ge") and truth is not None:
                     sides = [o[2], o[3]]
@@ -204,12 +221,24 @@ def accept_paths(P, f, accept="true"):
     return out
 
 
+def kind_allowed(k):
+    """variant tests that belong to looking at a type's path: the type is a path type, the generic argument is a type"""
+    vs, outcome = k
+    vs = set(vs.split("/"))
+    if "Reference" in vs and "Tuple" in vs:        # syn::Type
+        return outcome == "Path"
+    if "Lifetime" in vs and "Type" in vs:          # syn::GenericArgument
+        return outcome == "Type"
+    return False
+
+
 def classify(atoms):
     """spelling class and accepted name of one accepting path: ("tauri::X" | "tauri::ipc::X" | "bare" | "bare+generics" | "other:..", name)"""
     lo, hi = len_range(atoms["len"])
     segs = {k: positive(v) for k, v in atoms["seg"].items()}
-    if atoms["other"] or atoms.get("opaque_value"):
-        return ("other:" + ";".join(atoms["other"])[:60] if atoms["other"] else "other:computed-result", None)
+    odd_kinds = [k_ for k_ in atoms.get("kind", []) if not kind_allowed(k_)]
+    if atoms["other"] or atoms.get("opaque_value") or odd_kinds:
+        return ("other:" + ";".join(atoms["other"] + ["%s=%s" % (k_[0][:30], k_[1]) for k_ in odd_kinds])[:60] if (atoms["other"] or odd_kinds) else "other:computed-result", None)
     if segs.get(0) == "tauri" and (lo, hi) == (2, 2) and segs.get(1) not in (None, "?"):
         return ("tauri::X", segs[1])
     if segs.get(0) == "tauri" and segs.get(1) == "ipc" and (lo, hi) == (3, 3) and segs.get(2) not in (None, "?"):
